@@ -88,6 +88,10 @@ def join(a, b):
     for u, v in ((a, b), (b, a)):
         if u[0] in ("own", "mix") and ((v[0] == "fresh" and v[1] == 1 and v[2] == u[1]) or (v[0] in ("own", "mix") and v[1] == u[1])):
             return mix(u[1])
+    # p's object on one path, something wholly fresh on the other (`x = p.items if p.items is not None else []`)
+    for u, v in ((a, b), (b, a)):
+        if u[0] in ("own", "mix") and v[0] == "fresh" and v[2] is None:
+            return mix(u[1])
     # wholly fresh joined with fresh-around-owned stays "fresh container, maybe owned inside"
     if a[0] == "fresh" and b[0] == "fresh":
         if a[2] is None:
@@ -106,6 +110,74 @@ def join_all(vs):
             continue  # fresh scalars / constants do not blur ownership of the rest
         out = v if out is None else join(out, v)
     return out if out is not None else FRESH
+
+
+def _self_field_slice(prog, g: FuncInfo, expr, depth=0):
+    """(field, steps): `expr` (inside method g) denotes an object reached from `self.<field>` by `steps` dereferences
+    (attribute, subscript, iteration); None if not derivable syntactically. Iterating `self` follows __iter__ when it is
+    `return iter(self.<field>)`."""
+    if depth > 8 or not g.params:
+        return None
+    selfname = g.params[0]
+    if isinstance(expr, ast.Attribute):
+        if isinstance(expr.value, ast.Name) and expr.value.id == selfname:
+            return expr.attr, 0
+        r = _self_field_slice(prog, g, expr.value, depth + 1)
+        return (r[0], r[1] + 1) if r else None
+    if isinstance(expr, ast.Subscript):
+        r = _self_field_slice(prog, g, expr.value, depth + 1)
+        return (r[0], r[1] + 1) if r else None
+    if isinstance(expr, ast.Call) and isinstance(expr.func, ast.Attribute) and expr.func.attr in ("get", "values", "items", "pop", "setdefault"):
+        r = _self_field_slice(prog, g, expr.func.value, depth + 1)
+        return (r[0], r[1] + 1) if r else None
+    if isinstance(expr, ast.Name):
+        if expr.id == selfname:
+            return None
+        found = []
+        for n in ast.walk(g.node):
+            it = tgt = None
+            if isinstance(n, (ast.For, ast.comprehension)):
+                it, tgt = n.iter, n.target
+            elif isinstance(n, ast.Assign) and len(n.targets) == 1:
+                if isinstance(n.targets[0], ast.Name) and n.targets[0].id == expr.id:
+                    found.append(_self_field_slice(prog, g, n.value, depth + 1))
+                continue
+            else:
+                continue
+            names = [tgt] if isinstance(tgt, ast.Name) else (list(tgt.elts) if isinstance(tgt, (ast.Tuple, ast.List)) else [])
+            pos = next((i for i, x in enumerate(names) if isinstance(x, ast.Name) and x.id == expr.id), None)
+            if pos is None:
+                continue
+            src = it
+            if isinstance(src, ast.Call) and isinstance(src.func, ast.Name) and src.func.id == "enumerate" and src.args:
+                if pos != 1:
+                    found.append(None)
+                    continue
+                src = src.args[0]
+            elif isinstance(src, ast.Call) and isinstance(src.func, ast.Name) and src.func.id == "zip" and len(src.args) == len(names):
+                src = src.args[pos]
+            elif len(names) > 1:
+                found.append(None)
+                continue
+            if isinstance(src, ast.Name) and src.id == selfname and g.cls is not None:
+                it_m = g.cls.lookup("__iter__")
+                r = None
+                if it_m is not None:
+                    rets = [x for x in ast.walk(it_m.node) if isinstance(x, ast.Return) and x.value is not None]
+                    if len(rets) == 1:
+                        v = rets[0].value
+                        if isinstance(v, ast.Call) and isinstance(v.func, ast.Name) and v.func.id == "iter" and v.args:
+                            v = v.args[0]
+                        r0 = _self_field_slice(prog, it_m, v, depth + 1)
+                        r = (r0[0], r0[1] + 1) if r0 else None
+                found.append(r)
+            else:
+                r = _self_field_slice(prog, g, src, depth + 1)
+                found.append((r[0], r[1] + 1) if r else None)
+        if found and all(x is not None for x in found) and len({x[0] for x in found}) == 1:
+            return found[0][0], min(x[1] for x in found)
+        return None
+    return None
 
 
 class Summary:
@@ -181,6 +253,7 @@ class _Analysis:
         self.events: List[dict] = []
         self.returns = None
         self.params = f.all_params
+        self.captures: Dict[tuple, tuple] = {}  # (param q, field) -> (param p, copy depth k): `q.field = <objects of p>`
         a = f.node.args
         self.kwarg = a.kwarg.arg if a.kwarg else None
         self.vararg = a.vararg.arg if a.vararg else None
@@ -301,10 +374,11 @@ class _Analysis:
                     env2 = dict(env)
                     cur = env.get(t.id, TOP)
                     # x += [..] on an owned list mutates it; on numbers rebinds: unknown type -> keep value, no event
-                    if cur[0] == "own":
+                    if cur[0] in ("own", "mix"):
                         tt = self.inf.type_at(self.f, t)
-                        if definite(tt) and all(x[0] in ("list", "set", "dict") or x == ("b", "ndarray") for x in tt):
-                            self.event(cur[1], a, f"in-place `{norm(a)[:60]}` on an object owned by `{cur[1]}`")
+                        tt = frozenset(x for x in tt if x != ("b", "none")) if tt else tt  # `None += ..` raises: not a value here
+                        if tt and definite(tt) and all(x[0] in ("list", "set", "dict") or x == ("b", "ndarray") for x in tt):
+                            self.event(cur[1], a, f"in-place `{norm(a)[:60]}` on an object owned by `{cur[1]}`" + (" on some path" if cur[0] == "mix" else ""))
                     return env2
                 return env
             if isinstance(a, ast.Delete):
@@ -421,6 +495,13 @@ class _Analysis:
                         self.assign(e, elem(v), env, None)
         elif isinstance(t, (ast.Attribute, ast.Subscript)):
             self.store_effect(t, env, "store")
+            if isinstance(t, ast.Attribute) and v is not None:
+                base = self.ev(t.value, env)
+                owner, k = (v[1], 0) if v[0] in ("own", "mix") else ((v[2], v[1]) if v[0] == "fresh" and v[2] is not None else (None, 0))
+                if base[0] == "own" and owner is not None and owner != base[1]:
+                    old = self.captures.get((base[1], t.attr))
+                    if old is None or old[1] > k:
+                        self.captures[(base[1], t.attr)] = (owner, k)
         elif isinstance(t, ast.Starred):
             self.assign(t.value, v, env, None)
 
@@ -436,13 +517,30 @@ class _Analysis:
             root = f"{path[-1]}|{tag[:40]}"
         self.events.append({"param": p, "param_index": self.params.index(p), "node": node, "func": self.f.qname,
                             "file": self.f.module.relpath, "line": getattr(node, "lineno", 0), "desc": desc,
-                            "path": path, "root": root})
+                            "path": path, "root": root, "guards": self._param_guards(node)})
+
+    def _param_guards(self, node):
+        """[(parameter name, required truth value)] from enclosing `if <param>:` / `if not <param>:` tests"""
+        out = []
+        child, p = node, getattr(node, "_parent", None)
+        while p is not None and p is not self.f.node:
+            if isinstance(p, ast.If):
+                t, pol = p.test, True
+                while isinstance(t, ast.UnaryOp) and isinstance(t.op, ast.Not):
+                    t, pol = t.operand, not pol
+                if isinstance(t, ast.Name) and t.id in self.params:
+                    inbody = any(child is x for x in p.body)
+                    inelse = any(child is x for x in p.orelse)
+                    if inbody or inelse:
+                        out.append((t.id, pol if inbody else not pol))
+            child, p = p, getattr(p, "_parent", None)
+        return out
 
     def store_effect(self, t, env, kind):
         base = self.ev(t.value, env)
         if isinstance(t, ast.Subscript) and not isinstance(t.slice, ast.Slice):
             self.ev(t.slice, env)
-        if base[0] == "own":
+        if base[0] in ("own", "mix"):
             what = f".{t.attr}" if isinstance(t, ast.Attribute) else "[...]"
             self.event(base[1], t, f"{kind} to `{norm(t)[:60]}` — `{norm(t.value)[:40]}` belongs to `{base[1]}`")
         elif isinstance(t, ast.Attribute) and base != TOP:
@@ -518,6 +616,13 @@ class _Analysis:
                 if definite(tt) and all(x[0] == "list" for x in tt):
                     return wrap(elem(base)) if base != TOP else TOP
                 return base
+            # numpy advanced indexing (an integer / boolean array or a list as index) returns a copy, not a view
+            if base[0] in ("own", "mix") and not isinstance(e.slice, (ast.Constant, ast.Tuple)):
+                it = self.inf.type_at(self.f, e.slice)
+                if definite(it) and all(x == ("b", "ndarray") or x[0] == "list" for x in it):
+                    bt = self.inf.type_at(self.f, e.value)
+                    if not (definite(bt) and all(x[0] in ("list", "dict") for x in bt)):
+                        return FRESH
             return elem(base)
         if isinstance(e, ast.Call):
             return self.call(e, env)
@@ -675,7 +780,7 @@ class _Analysis:
         if recv is not None and isinstance(fn, ast.Attribute):
             m = fn.attr
             repo_targets = [t for t in targets if t[0] in ("func", "weakfunc", "ctor")]
-            if m in MUTATORS and recv[0] == "own" and not repo_targets:
+            if m in MUTATORS and recv[0] in ("own", "mix") and not repo_targets:
                 rt = self.inf.type_at(self.f, fn.value)
                 # a definitely immutable / non-container receiver cannot be mutated this way
                 if not (definite(rt) and all(x[0] == "b" and x[1] in ("str", "int", "float", "bool", "none") for x in rt)):
@@ -722,6 +827,8 @@ class _Analysis:
             else:
                 vals = argv
             self._arg_effects(e, g, vals, kwv, mut_sets, bound)
+            if bound and recv is not None and recv[0] == "own" and self.captures:
+                self._captured_effects(e, g, recv[1])
             if self._record and g.name in self.O.watch:
                 self.O.watched.append({"caller": self.f, "callee": g, "node": e, "args": list(vals), "kwargs": dict(kwv)})
             summ = self.O.summaries[g.qname]
@@ -747,6 +854,60 @@ class _Analysis:
             r = join(r, x)
         return r
 
+    def _captured_effects(self, call, g: FuncInfo, q):
+        """`q.m()` where m mutates objects it reaches through `self.F` and this function stored objects of another
+        parameter p into `q.F` (a constructor keeping its argument): m mutates p's objects."""
+        for ev in self.O.events.get(g.qname, []):
+            if ev["param_index"] != 0 or ev["func"] != g.qname:
+                continue
+            node = ev["node"]
+            obj = node.func.value if isinstance(node, ast.Call) and isinstance(node.func, ast.Attribute) else getattr(node, "value", None)
+            if obj is None:
+                continue
+            sl = _self_field_slice(self.prog, g, obj)
+            if sl is None:
+                continue
+            field, steps = sl
+            cap = self.captures.get((q, field))
+            if cap is None:
+                continue
+            p, k = cap
+            if steps < k:
+                continue  # only the fresh copy layer is touched
+            self.event(p, call, f"`{norm(call)[:50]}` runs {g.qname.split(':')[1]}, which mutates objects reached through `self.{field}` "
+                                f"({ev['desc'][:90]}); `{q}.{field}` holds the objects of `{p}`",
+                       path=[self.f.qname, g.qname], root=f"{g.qname}|captured:{field}")
+
+    def _guard_excluded(self, call, g: FuncInfo, guards, bound) -> bool:
+        """the callee's mutation sits under `if <param>` and this call passes (or leaves the default at) a constant of the
+        opposite truth value"""
+        if not guards:
+            return False
+        params = g.params
+        a = g.node.args
+        pos = list(a.posonlyargs) + list(a.args)
+        defaults = {}
+        for arg, d in zip(pos[len(pos) - len(a.defaults):], a.defaults):
+            defaults[arg.arg] = d
+        for arg, d in zip(a.kwonlyargs, a.kw_defaults):
+            if d is not None:
+                defaults[arg.arg] = d
+        off = 1 if (bound or (g.name == "__init__")) and params and params[0] in ("self", "cls") else 0
+        for pname, pol in guards:
+            val = None
+            for k in call.keywords:
+                if k.arg == pname:
+                    val = k.value
+            if val is None and pname in params:
+                i = params.index(pname) - off
+                if 0 <= i < len(call.args) and not any(isinstance(x, ast.Starred) for x in call.args[:i + 1]):
+                    val = call.args[i]
+            if val is None and not any(k.arg is None for k in call.keywords):
+                val = defaults.get(pname)
+            if isinstance(val, ast.Constant) and bool(val.value) != pol:
+                return True
+        return False
+
     def _is_class_expr(self, expr) -> bool:
         t = self.inf.type_at(self.f, expr)
         return definite(t) and all(a[0] == "cls" for a in t)
@@ -762,7 +923,9 @@ class _Analysis:
                 v = vals[idx]
             if idx < len(params) and params[idx] in kwv:
                 v = kwv[params[idx]]
-            if v is None or v[0] != "own":
+            if v is None or v[0] not in ("own", "mix"):
+                continue
+            if self._guard_excluded(call, g, inner.get("guards") or (), bound):
                 continue
             pname = params[idx] if idx < len(params) else f"#{idx}"
             found[(v[1], inner["root"])] = {"desc": f"`{norm(call)[:60]}` passes an object of `{v[1]}` as `{pname}` to {g.qname.split(':')[1]}, which mutates it "
